@@ -17,6 +17,36 @@ Proof. destruct r; cbn; intros H; [inversion H; reflexivity | discriminate]. Qed
 
 Definition okl (P : N -> Prop) (l : list N) : Prop := Forall P l.
 
+(* ---------- decimal ---------- *)
+Lemma decimal_rev_ok fuel : forall n, Forall ok_byte (decimal_rev fuel n).
+Proof.
+  induction fuel as [|f IH]; intros n; cbn [decimal_rev]; [constructor|].
+  constructor; [unfold ok_byte; lia|]. destruct (n / 10 =? 0); [constructor | apply IH].
+Qed.
+Lemma decimal_ok n : Forall ok_byte (decimal n).
+Proof. unfold decimal. apply Forall_rev, decimal_rev_ok. Qed.
+
+(* ---------- scheme ---------- *)
+Lemma parse_scheme_loop_ok ctx l : forall acc s r,
+  parse_scheme_loop ctx acc l = Some (s, r) -> Forall ok_byte acc -> Forall ok_byte s.
+Proof.
+  induction l as [|c t IH]; intros acc s r H Ha; cbn [parse_scheme_loop] in H.
+  - destruct (ctx_eqb ctx CSetter); [|discriminate]. inversion H; subst. apply Forall_rev. exact Ha.
+  - destruct (is_tnl c); [eapply IH; eassumption|].
+    destruct (is_lower c || is_digit c || (c =? 43) || (c =? 45) || (c =? 46)) eqn:E1.
+    { eapply IH; [exact H|]. constructor; [|exact Ha]. unfold is_lower, is_digit, ok_byte in *. lia. }
+    destruct (is_upper c) eqn:E2.
+    { eapply IH; [exact H|]. constructor; [|exact Ha]. unfold is_upper, ok_byte in *. lia. }
+    destruct (c =? 58); [|discriminate]. inversion H; subst. apply Forall_rev. exact Ha.
+Qed.
+
+Lemma parse_scheme_ok ctx l s r : parse_scheme ctx l = Some (s, r) -> Forall ok_byte s.
+Proof.
+  unfold parse_scheme. destruct (inp_starts_with_pred is_alpha l); [|discriminate].
+  intros H. eapply parse_scheme_loop_ok; [exact H | constructor].
+Qed.
+
+
 Section Generic.
 Variable P : N -> Prop.
 Hypothesis P_ok : forall b, ok_byte b -> P b.
@@ -266,13 +296,6 @@ Proof.
 Qed.
 
 (* ---------- decimal ---------- *)
-Lemma decimal_rev_ok fuel : forall n, Forall ok_byte (decimal_rev fuel n).
-Proof.
-  induction fuel as [|f IH]; intros n; cbn [decimal_rev]; [constructor|].
-  constructor; [unfold ok_byte; lia|]. destruct (n / 10 =? 0); [constructor | apply IH].
-Qed.
-Lemma decimal_ok n : Forall ok_byte (decimal n).
-Proof. unfold decimal. apply Forall_rev, decimal_rev_ok. Qed.
 Lemma decimal_okl n : okl (decimal n).
 Proof. apply okl_ok, decimal_ok. Qed.
 
@@ -563,26 +586,6 @@ Proof.
     eapply shorten_path_okl; [exact Hs1 | exact Hbq].
   - pb H a Ha. destruct a as [[s2 hh] rem]. pb H c0 Hc. destruct c0 as [[s3 qs] fs].
     inversion H; subst. cbn [ser file_url]. eapply Hplain; eassumption.
-Qed.
-
-(* ---------- scheme ---------- *)
-Lemma parse_scheme_loop_ok ctx l : forall acc s r,
-  parse_scheme_loop ctx acc l = Some (s, r) -> Forall ok_byte acc -> Forall ok_byte s.
-Proof.
-  induction l as [|c t IH]; intros acc s r H Ha; cbn [parse_scheme_loop] in H.
-  - destruct (ctx_eqb ctx CSetter); [|discriminate]. inversion H; subst. apply Forall_rev. exact Ha.
-  - destruct (is_tnl c); [eapply IH; eassumption|].
-    destruct (is_lower c || is_digit c || (c =? 43) || (c =? 45) || (c =? 46)) eqn:E1.
-    { eapply IH; [exact H|]. constructor; [|exact Ha]. unfold is_lower, is_digit, ok_byte in *. lia. }
-    destruct (is_upper c) eqn:E2.
-    { eapply IH; [exact H|]. constructor; [|exact Ha]. unfold is_upper, ok_byte in *. lia. }
-    destruct (c =? 58); [|discriminate]. inversion H; subst. apply Forall_rev. exact Ha.
-Qed.
-
-Lemma parse_scheme_ok ctx l s r : parse_scheme ctx l = Some (s, r) -> Forall ok_byte s.
-Proof.
-  unfold parse_scheme. destruct (inp_starts_with_pred is_alpha l); [|discriminate].
-  intros H. eapply parse_scheme_loop_ok; [exact H | constructor].
 Qed.
 
 (* ---------- top level ---------- *)
